@@ -73,7 +73,7 @@ def rule_filter(chk: Check, model, rid: str):
             if ok:
                 n1, n2 = tup[1]
                 ok = flow.implies(cond, ("in", n1, S("nodes")))
-                ok = ok and any(x[0] == "elem" and x[1] == T.mk_call("nodes.items", []) for x in T.walk(n2))
+                ok = ok and any(x[0] == "elem" and x[1] in (T.mk_call("nodes.items", []), S("nodes")) for x in T.walk(n2))
             branch = "filter on" if flow.implies(cond, S("filter_edges" if "Graph" in q else "filter_connections")) else "filter off"
             chk.add(rid, f"{q}: connection only between selected nodes ({branch})", bool(ok), f"a connection {T.show(tup)[:100]} is inserted under {T.show(cond)[:140]}: "
                     "the sending node must be checked to be in `nodes`", chk.loc(fi, e.node))
